@@ -25,6 +25,10 @@ type CallSite struct {
 	// caller's canonical expression text.
 	Actual map[string]string
 	Ren    [][2]int
+	// Fresh lists the lock classes guarding the types of those actuals that are objects
+	// created in the calling function and not yet published (x := &T{...}): owning such
+	// an object exclusively is as good as holding its lock.
+	Fresh []string
 }
 
 var skipS = &S{K: "skip"}
